@@ -18,7 +18,7 @@ func init() {
 		}
 		cfg := &eng.BulkConfig{
 			Backends: []string{drv.BBolt, drv.Badger}, Sizes: sizes, Pads: []int{0},
-			IndexSets: [][]string{{}, {"x"}, {"x", "xy"}, {"n.a", "n"}, {"opt"}}, Ops: eng.BulkOps(),
+			IndexSets: [][]string{{}, {"x", "xy"}, {"n.a", "n"}, {"opt", "x"}}, Ops: eng.BulkOps(),
 		}
 		if tier == "thorough" {
 			cfg.Pads = []int{0, 300}
@@ -36,9 +36,9 @@ func init() {
 			eng.BulkSweep(&eng.BulkConfig{Backends: []string{drv.BBolt, drv.Badger}, Sizes: []int{3, 17, 40}, Pads: []int{5000}, IndexSets: [][]string{{}, {"x"}}, Ops: eng.BulkOps()}, run, tags)
 		}
 		// the full sort x skip x limit grid on a Fibonacci ladder of sizes
-		eng.BulkSweep(&eng.BulkConfig{Backends: []string{drv.BBolt, drv.Badger}, Sizes: []int{0, 1, 2, 3, 4, 5, 8, 13, 21, 34, 55}, Pads: []int{0}, IndexSets: [][]string{{}, {"x"}, {"y", "x"}}, Ops: eng.BulkWindowOps()}, run, tags)
+		eng.BulkSweep(&eng.BulkConfig{Backends: []string{drv.BBolt, drv.Badger}, Sizes: []int{0, 1, 2, 3, 5, 8, 13, 21, 40}, Pads: []int{0}, IndexSets: [][]string{{}, {"x"}, {"y", "x"}}, Ops: eng.BulkWindowOps()}, run, tags)
 		run.Set("distinct_nontrivial", run.DistinctCount("cases"))
 		run.Set("max_size_every_n", max)
-		return "UpdateFunc / Update / Delete over the full grid {no sort, sort +y, sort -x, sort +g,-y} x skip {unset,0,3,-1} x limit {unset,-1,0,4} x {no criteria, x>=2} (384 operations) at sizes 0,1,2,3,4,5,8,13,21,34,55 x 3 index sets x 2 backends; and every collection size N from 0 to the bound (64 quick, 400 thorough; plus larger multi-page sizes with 300-byte padding) x index sets none / x / x+xy x 16 bulk operations (Delete all / on the indexed field / on an unindexed field / sorted window; Update of an unrelated field and of the very field being filtered; UpdateFunc moving documents forward and backward in the index being scanned, in-place and copying, with sort+skip+limit, unsorted window, removal; DropCollection then re-creation; CreateIndex on the existing documents; DropIndex beside a prefix-named sibling) x bbolt and badger; oracle: the update function ran exactly once per document FindAll returned immediately before, on its pre-call value; afterwards exactly those documents changed/removed (reference model), the prefix-named sibling collection untouched, raw key set equal to a canonical rebuild; distinct = (backend, N, padding, index set, operation)"
+		return "UpdateFunc / Update / Delete over the full grid {no sort, sort +y, sort -x, sort +g,-y} x skip {unset,0,3,-1} x limit {unset,-1,0,4} x {no criteria, x>=2} (384 operations) at sizes 0,1,2,3,5,8,13,21,40 x 3 index sets x 2 backends; and every collection size N from 0 to the bound (64 quick, 400 thorough; plus larger multi-page sizes with 300-byte padding) x index sets none / x / x+xy x 16 bulk operations (Delete all / on the indexed field / on an unindexed field / sorted window; Update of an unrelated field and of the very field being filtered; UpdateFunc moving documents forward and backward in the index being scanned, in-place and copying, with sort+skip+limit, unsorted window, removal; DropCollection then re-creation; CreateIndex on the existing documents; DropIndex beside a prefix-named sibling) x bbolt and badger; oracle: the update function ran exactly once per document FindAll returned immediately before, on its pre-call value; afterwards exactly those documents changed/removed (reference model), the prefix-named sibling collection untouched, raw key set equal to a canonical rebuild; distinct = (backend, N, padding, index set, operation)"
 	})
 }
